@@ -347,7 +347,13 @@ pointwise expression does not exist (shape or grid mismatch, zero divisor, singu
 Proved here for trees of one square shape on one grid with `neg + - * (scalar *) feedback`
 (`tree_sound_partial`, `tree_error_partial`); missing: the run-time-shaped dispatch (SISO
 promotion, shape and grid checks, `/`, `pow`, `append`, indexing), which is covered operator by
-operator above and by the correspondence runs. -/
+operator above and by the correspondence runs.
+
+The FULL theorem over run-time shapes is now proved in `Props/C09Tree.lean` (`tree_spec`,
+`tree_sound`, `tree_error`, `tree_error_kind`, `tree_complete`, `tree_returns_iff` over
+`Model/C09Expr.lean`: leaves of any shape, scalar / array / LTI / off-grid FRD operands on either
+side, `+ - * / neg ** feedback append index`, through the dispatching run-time layer
+`Model/FRDDyn.lean`).  The two partial theorems below are kept as they are. -/
 
 section tree
 variable {ι : Type*} [Fintype ι] [DecidableEq ι] [DecidableEq K]
